@@ -34,7 +34,7 @@
        `sets`, invariant LatestPrefixWins and companions; script emission;
      - LogContextConc.tla (abstract state advanced at linearisation points);
      - LogTrace.tla, the judge of every recorded event of the real code. *)
-EXTENDS Naturals, Integers, Sequences, FiniteSets, TLC, Json
+EXTENDS LogFormat, TLC, Json
 
 CONSTANTS Names,          \* names used by the model checker (sequences of code points)
           MaxDepth,       \* depth bound of the model checker's tree
@@ -94,27 +94,7 @@ Latest(ss, rt, p) ==
   IF idx = {} THEN rt ELSE ss[SetMax(idx)].l
 
 -----------------------------------------------------------------------------
-(* text *)
-ColonSpace == <<58, 32>>
-LevelName == << <<118,101,114,98,111,115,101>>,      \* verbose
-                <<100,101,98,117,103>>,              \* debug
-                <<105,110,102,111>>,                 \* info
-                <<119,97,114,110,105,110,103>>,      \* warning
-                <<101,114,114,111,114>>,             \* error
-                <<102,97,116,97,108>> >>             \* fatal
-
-RECURSIVE Prefixes(_)
-Prefixes(path) == IF path = <<>> THEN <<>> ELSE Head(path) \o ColonSpace \o Prefixes(Tail(path))
-
-(* level-stream formatter kinds: k = 0 none, 1 = format::default_level ("<level>: text\n"),
-   2 = format::inserter(pre, suf) *)
-LevelFmt(f, l, text) ==
-  IF f.k = 0 THEN text
-  ELSE IF f.k = 1 THEN LevelName[l + 1] \o ColonSpace \o text \o <<10>>
-  ELSE f.pre \o text \o f.suf
-
-LogText(ofmt, path, f, l, msg) == ofmt \o Prefixes(path) \o LevelFmt(f, l, msg)
-
+(* text: LevelName, Prefixes, LevelFmt, LogText, ... are defined in LogFormat.tla *)
 NoOut == [i \in 1..6 |-> <<>>]
 DefaultLf == [i \in 1..6 |-> [k |-> 1, pre |-> <<>>, suf |-> <<>>]]
 
@@ -138,7 +118,7 @@ Pre(s, ev) ==
                            /\ (ev.kind = "parent" => ev.par \in Bound(s))
                            /\ (ev.kind = "loc" => \A i \in 1..Len(ev.loc) : ev.loc[i] # <<>>)
     [] ev.op \in {"level"} -> ev.o \in Bound(s)
-    [] ev.op \in {"enabled", "log", "logm"} -> ev.o \in Bound(s) /\ ev.l \in MsgLevels
+    [] ev.op \in {"enabled", "log", "logm", "acc"} -> ev.o \in Bound(s) /\ ev.l \in MsgLevels
     [] OTHER -> FALSE
 
 NoRet == -1
@@ -160,6 +140,8 @@ Eff(s, ev) ==
          [st |-> s, ret |-> s.lvl[s.obj[ev.o].path], rb |-> FALSE, out |-> NoOut]
     [] ev.op = "enabled" ->
          [st |-> s, ret |-> NoRet, rb |-> EnabledOp(s.lvl[s.obj[ev.o].path], ev.l), out |-> NoOut]
+    [] ev.op = "acc" ->      \* accessors: no effect; rb = the enabled decision is not used
+         [st |-> s, ret |-> NoRet, rb |-> FALSE, out |-> NoOut]
     [] ev.op \in {"log", "logm"} ->
          LET ob == s.obj[ev.o]
              en == EnabledOp(s.lvl[ob.path], ev.l)
